@@ -219,6 +219,31 @@ def _deep_expr(fn, nid, depth=0):
     return txt + " <= " + " | ".join(extra) if extra else txt
 
 
+def insert_publication(ctx):
+    rid = "VHM.insert-publication"
+    ctx.rule(rid, "do_get_or_emplace publishes a new item only after it is completely written: array slot: store_item < unlock(inc_item_count, release); "
+                  "extension item: store_item < next.store(old head) < head.store(release) < unlock; a failed store_item frees the extension item")
+    for fn in flow._shapes(ctx, V + "do_get_or_emplace"):
+        si = flow.find(fn, call("store_item"))
+        unl = flow.find(fn, call("unlocker::unlock"))
+        hs = flow.find(fn, {"k": "call", "field": "bucket::head", "op": "store"})
+        ns = flow.find(fn, {"k": "call", "field": "extension_item::next", "op": "store"})
+        inst = V + "do_get_or_emplace"
+        if len(si) < 2 or not unl or not hs or not ns:
+            ctx.bad(rid, inst + "#shape", "expected two store_item sites (array / extension), head.store, next.store, unlock (found %d/%d/%d/%d)" % (len(si), len(hs), len(ns), len(unl)),
+                    fn.where(), fn=fn)
+            continue
+        inc = [u for u in unl if "inc_item_count" in _deep_expr(fn, u)]
+        ok1 = bool(inc) and all(any(fn.before(s_, u) for s_ in si) for u in inc)
+        ctx.check(ok1, rid, inst + "#array:store<publish", "array item written before the item count is published",
+                  "the item count is published (unlock with inc_item_count) before the slot was written", fn.where(inc[0]) if inc else fn.where(), fn=fn)
+        ok2 = all(any(fn.before(n_, h) for n_ in ns) for h in hs) and all(any(fn.before(s_, h) for s_ in si) for h in hs)
+        ctx.check(ok2, rid, inst + "#extension:store<next<head", "extension item written and linked (next) before bucket.head is published",
+                  "bucket.head is published before the new extension item was written / linked to the old head (readers follow a dangling next)", fn.where(hs[0]), fn=fn)
+        ok3 = all(flow.always_after(fn, h, unl)[0] for h in hs)
+        ctx.check(ok3, rid, inst + "#extension:head<unlock", "bucket unlocked after the extension item was published", "the bucket stays locked after inserting an extension item", fn.where(hs[0]), fn=fn)
+
+
 def locking(ctx):
     rid = "VHM.lock-pairing"
     ctx.rule(rid, "bucket lock pairing: a successful lock is handed to a RAII unlocker before anything can throw or return; "
